@@ -46,8 +46,8 @@ def build():
     u.verify(AP, "request_certificate", "acme_proto", props=["C03", "C05", "C07", "C01", "C02", "C10", "C11"], fns={"request_certificate": FnSpec(
         ret="r", ghost=True, locks=True, attrs="#[verifier::exec_allows_no_decreases_clause]",
         # the contract speaks of the order that is finalized / whose certificate is downloaded: the variables the code itself uses there
-        names={"ofin": r"&(\w+)\.finalize\b", "ocert": r"(?<![\w.])(\w+)\s*\.certificate\b(?!\s*[(:])"}, sig="""
-    requires old(w).pending_clean.len() == 0, !old(w).hooks_ok, !old(w).cert_written, old(w).cur_auth is None, old(w).downloaded is None,
+        names={"oauth": r"for \w+ in (\w+)\.authorizations\.iter\(\)", "ofin": r"&(\w+)\.finalize\b", "ocert": r"(?<![\w.])(\w+)\s*\.certificate\b(?!\s*[(:])"}, sig="""
+    requires old(w).pending_clean.len() == 0, !old(w).hooks_ok, !old(w).cert_written, old(w).cur_auth is None, old(w).downloaded is None, old(w).settled == 0,
     ensures
         // success is reported only after the downloaded certificate has been written next to the key
         r is Ok ==> final(w).cert_written, //@C07.success_only_after_the_certificate_is_installed,C02.success_only_after_the_certificate_is_installed
@@ -56,38 +56,46 @@ def build():
         // an attempt that fails has not touched the certificate file
         r is Err ==> !final(w).cert_written, //@C03.failed_attempt_leaves_the_certificate_file_alone
 """, loops={1: """
-    invariant brk__ is None ==> true, w.pending_clean.len() == 0, !w.hooks_ok, !w.cert_written, w.cur_auth is None, w.downloaded is None,
-    ensures brk__ is Some, w.pending_clean.len() == 0, !w.hooks_ok, !w.cert_written, w.cur_auth is None, w.downloaded is None,
+    invariant brk__ is None ==> true, w.pending_clean.len() == 0, !w.hooks_ok, !w.cert_written, w.cur_auth is None, w.downloaded is None, w.settled == 0,
+    ensures brk__ is Some, w.pending_clean.len() == 0, !w.hooks_ok, !w.cert_written, w.cur_auth is None, w.downloaded is None, w.settled == 0,
     // the newOrder step is tried at most twice: once more after one re-registration, never again
     decreases (if new_reg { 0int } else { 1int }), //@C07.the_new_order_step_is_tried_at_most_twice,C08.the_new_order_step_is_tried_at_most_twice
 """, 2: """
     invariant w.pending_clean == clean_views(hook_datas@), hook_datas@.len() == 0, !w.hooks_ok, !w.cert_written, w.downloaded is None,
+        // every authorization of the order gone through so far has been seen valid: none is passed over
+        w.settled == it2.index@, //@C05.no_authorization_of_the_order_is_passed_over,C01.no_authorization_of_the_order_is_passed_over
 """, 3: """
     invariant w.pending_clean == clean_views(hook_datas@), !w.hooks_ok, !w.cert_written, w.downloaded is None,
-        w.cur_auth == Some(auth_view(auth)), auth.status is Pending,
+        w.cur_auth == Some(auth_view(auth)), auth.status is Pending, w.settled == it2.index@,
         chosen_for(*cert, auth.identifier.value@, is_wildcard) == Some(current_identifier), current_challenge == current_identifier.challenge,
         is_wildcard == wildcard_of(auth),
 """, 4: """
-    invariant w.pending_clean == clean_views(hook_datas@.skip(it4.index@)), !w.hooks_ok, !w.cert_written, w.downloaded is None,
+    invariant w.pending_clean == clean_views(hook_datas@.skip(it4.index@)), !w.hooks_ok, !w.cert_written, w.downloaded is None, w.settled == it2.index@ + 1,
 """},
         rewrites=[("T-CLOSURE", r"move \|n: &str, url: &str\| \{\s*encode_kid\(\s*&account\.current_key\.key,\s*&account\.current_key\.signature_algorithm,\s*"
                                 r"&\(account\.get_endpoint\(endpoint_name\)\?\.account_url\),\s*(?P<data>[^,]+),\s*url,\s*n,?\s*\)", builder_rw, None),
                   ("T-FMT", r"format!\(\s*\"\{\}: authorization status is \{\}\",\s*auth\.identifier, auth\.status\s*\)", "crate::opaque_string()"),
                   ("T-JSON", r"json!\(\{\s*\"csr\": csr\.to_der_base64\(\)\?,\s*\}\)", 'crate::shims::json_csr(csr.to_der_base64()?)'),
-                  ("T-ITER", r"(?P<src>cert|order)\s*\.identifiers\s*\.iter\(\)\s*\.filter\(\|(?P<e>\w+)\| (?P=e)\.id_type == IdentifierType::(?P<t>Dns|Ip)\)\s*\.map\(\|(?P<f>\w+)\| (?P=f)\.value\.(?:to_owned|clone|to_string)\(\)\)\s*\.collect\(\)",
+                  ("T-ITER", r"(?P<src>cert|order)\s*\.identifiers\s*\.iter\(\)\s*\.filter\(\|(?P<e>\w+)\| (?P=e)\.id_type == IdentifierType::(?P<t>Dns|Ip)\)\s*\.map\(\|(?P<f>\w+)\| (?P=f)\.value\.(?:to_owned|clone|to_string)\(\)\)\s*\.collect(?:::<Vec<String>>)?\(\)",
                    lambda m: ("crate::shims::values_of_type(&cert.identifiers, IdentifierType::" if m.group("src") == "cert" else "crate::shims::order_values_of_type(&order.identifiers, IdentifierType::") + m.group("t") + ")", 2),
                   ("T-ITER", r"for \(data, hook_type\) in hook_datas\.iter\(\)", "for (data, hook_type) in it4: hook_datas.iter()"),
+                  ("T-ITER", r"for (?P<v>\w+) in (?P<o>\w+)\.authorizations\.iter\(\)", r"for \g<v> in it2: \g<o>.authorizations.iter()"),
                   # T-CLOSURE: a pure predicate closure gets `ensures result == its own body`
                   ("T-CLOSURE", r"let break_fn = \|(?P<p>\w+): &(?P<t>\w+)\| (?P<body>[^;{}]+);",
                    lambda m: f"let break_fn = |{m.group('p')}: &{m.group('t')}| -> (b__: bool) ensures b__ == ({m.group('body')}) {{ {m.group('body')} }};", None),
                   ],
         at=[("after_stmt_re", r"let (\w+) = NewOrder::new\(", 1, "let ghost order_struct__ = $1;"),
+            ("loop_after", None, 2, """
+    proof {
+        // the loop has gone through every authorization of the order (it is not left early): all of them have been seen valid
+        assert(w.settled == $oauth.authorizations@.len()); //@C05.no_authorization_of_the_order_is_passed_over,C01.no_authorization_of_the_order_is_passed_over
+    }"""),
             ("after_stmt_re", r"let (\w+) = serde_json::to_string\(&\w+\)\?;", 1, """
         proof {
             // the newOrder payload is the serialisation of exactly the configured identifiers
             assert($1@ == crate::shims::serde_json::ser_spec(order_struct__) && order_struct__.ids@ == cert.identifiers@); //@C01.order_payload_lists_the_configured_identifiers
         }"""),
-            ("after_stmt", "let ips: Vec<String>", 1, """
+            ("after_stmt_re", r"let ips\b", 1, """
     proof {
         // the CSR names are the configured identifiers, split by type, in order
         assert(domains@.map_values(|s: String| s@) == values_spec(cert.identifiers@, IdentifierType::Dns)
@@ -147,5 +155,6 @@ pub tracked struct World {
     pub ghost pair_installed: bool,     // a certificate and its matching key were on disk when the attempt started
     pub ghost disk_key: Option<int>,    // identity of the key in the key file, when known
     pub ghost cert_url: Option<Seq<char>>, // the certificate URL the (valid) order gives, once it has been read from it
+    pub ghost settled: int,             // authorizations of the order seen valid so far (already valid when fetched, or polled until valid)
 }
 """
